@@ -88,6 +88,29 @@ def fam_derived_mesh(ctx, rng):
     check_box(ctx, o)
 
 
+def fam_near_axis(ctx, rng):
+    """cylinders, cones and full 3D circles whose axis / normal is within a few 1e-4 rad of a world axis without being aligned with it,
+    and large ones (radius up to 5000 at coordinates up to 1e4) in general position"""
+    from ladybug_geometry.geometry3d import Cylinder, Cone
+    k = rng.randrange(3)
+    if rng.random() < 0.6:
+        t1, t2 = rng.choice([1, -1]) * rng.uniform(5e-5, 4e-4), rng.choice([1, -1]) * rng.uniform(0, 4e-4)
+        ax = [0.0, 0.0, 0.0]; ax[k] = rng.choice([1.0, -1.0]); ax[(k + 1) % 3] = t1; ax[(k + 2) % 3] = t2
+        r = G.dy(rng.uniform(0.5, 30)); c = G.rpt3(rng, 100)
+    else:
+        ax = list(G.rvec3(rng, 1)); r = G.dy(rng.uniform(500, 5000)); c = G.rpt3(rng, 5000)
+    h = rng.uniform(0.5, 3.0) * (r if r < 100 else 1.0)
+    axis = V3(tuple(a * h for a in ax))
+    which = rng.choice(['Cylinder', 'Cone', 'Arc3D'])
+    if which == 'Cylinder':
+        o = Cylinder(P3(c), axis, r)
+    elif which == 'Cone':
+        o = Cone(P3(c), axis, G.dy(rng.uniform(0.2, 1.2)))
+    else:
+        o = Arc3D(Plane(axis.normalize(), P3(c)), r)
+    check_box(ctx, o)
+
+
 def check_box(ctx, o):
     cls = type(o).__name__
     mn, mx = tuple(o.min), tuple(o.max)
@@ -161,8 +184,9 @@ def fam_arc_grid(ctx, rng):
 def fam_collections(ctx, rng):
     n = rng.randint(1, 8)
     d3 = rng.random() < 0.5
-    pool3 = ['Polyline3D', 'Face3D', 'Polyface3D', 'Mesh3D']
-    pool2 = ['Polygon2D', 'Polyline2D', 'Mesh2D']
+    pool3 = ['Polyline3D', 'Face3D', 'Polyface3D', 'Mesh3D', 'LineSegment3D', 'LineSegment3D']
+    pool2 = ['Polygon2D', 'Polyline2D', 'Mesh2D', 'LineSegment2D']
+    verts_of = lambda o: o.vertices if hasattr(o, 'vertices') else (o.p1, o.p2)
     objs = [Bd.make(rng, rng.choice(pool3 if d3 else pool2)) for _ in range(n)]
     if n > 1 and rng.random() < 0.5:
         # concentric members, smallest first: every later member sticks out of the running hull on BOTH sides of every axis
@@ -194,17 +218,20 @@ def fam_collections(ctx, rng):
     c, s = math.cos(ang), math.sin(ang)
     us, vs = [], []
     for o in objs:
-        for p in o.vertices:
+        for p in verts_of(o):
             us.append(p.x * c + p.y * s); vs.append(-p.x * s + p.y * c)
     ew, eh = max(us) - min(us), max(vs) - min(vs)
     given = list(objs)
-    if d3:
-        w, h, zz = Bn.bounding_box_extents(objs, ang)
-        ez = max(p.z for o in objs for p in o.vertices) - min(p.z for o in objs for p in o.vertices)
-        if abs(zz - ez) > 1e-7 * max(1, ez):
-            ctx.violation('bounding_box_extents:z', 'z extent %r expected %r' % (zz, ez), desc)
-    else:
-        w, h = Bn.bounding_rectangle_extents(objs, ang)
+    try:
+        if d3:
+            w, h, zz = Bn.bounding_box_extents(objs, ang)
+            ez = max(p.z for o in objs for p in verts_of(o)) - min(p.z for o in objs for p in verts_of(o))
+            if abs(zz - ez) > 1e-7 * max(1, ez):
+                ctx.violation('bounding_box_extents:z', 'z extent %r expected %r' % (zz, ez), desc)
+        else:
+            w, h = Bn.bounding_rectangle_extents(objs, ang)
+    except Exception as e:
+        ctx.violation('bounding_extents:rotated:raises', '%r' % (e,), desc); return
     sc = max(1.0, ew, eh)
     # the collection handed in is the caller's: same members afterwards, and the same answer when asked again
     again = Bn.bounding_box_extents(objs, ang)[:2] if d3 else Bn.bounding_rectangle_extents(objs, ang)
@@ -332,7 +359,7 @@ def fam_overlap_exact(ctx, rng):
             ax, {'equal': 'exactly', 'below': 'just below', 'above': 'just above'}[case], dist, [float(g) for g in gaps], exp, r1, r2), desc)
 
 
-FAMILIES = [(fam_boxes, 150), (fam_derived_mesh, 40), (fam_arc_grid, 80), (fam_collections, 30), (fam_mixed, 30), (fam_overlap, 70), (fam_overlap_exact, 60)]
+FAMILIES = [(fam_boxes, 150), (fam_derived_mesh, 40), (fam_near_axis, 60), (fam_arc_grid, 80), (fam_collections, 30), (fam_mixed, 30), (fam_overlap, 70), (fam_overlap_exact, 60)]
 
 
 def explore(ctx):
